@@ -580,6 +580,45 @@ def replay_levels(chk, rs, c, variants):
                 return
 
 
+def large_column_scenarios(chk, rs, t):
+    """C10 on LARGE vertical grids (the property quantifies over small and large grids; the bounded model enumerates
+    nz <= 5, the bookkeeping it checks does not depend on nz): full columns and long unsorted level selections on
+    nz = 41 / 70, every slot against the single-level solve; the recorded mean_store / return events of these calls
+    go through TraceSolver like all others."""
+    rng = np.random.default_rng(seed() + 99)
+    n = 0
+    for nz, nsel in ((41, 41), (41, 33), (70, 36), (70, 65)) if t == "quick" else ((41, 41), (41, 33), (70, 36), (70, 65), (70, 70), (130, 97)):
+        for fp in (False, True):
+            c = {"nx": 6, "ny": 4, "ax": 2, "ay": 3, "halo": 2, "mx": 6, "my": 4, "xm": 4, "ym": 3, "fp": fp, "an": False, "nz": nz,
+                 "lv": [int(x) for x in rng.permutation(nz)[:nsel]], "err": "none", "shape": [nsel, 4, 6]}
+            if not fp:
+                c["xm"] = c["ym"] = 0
+            kw = rs.solver_args(c, "most_u" if fp else "mostm", "double")
+            q = rs.source(c, "dense", rng)
+            chk.case(("large", nz, nsel, fp))
+            n += 1
+            grid, pm, fm = rs.solve3(q, kw, srf_bg_conc=0.3)
+            if not (np.all(np.isfinite(pm)) and np.all(np.isfinite(fm))):
+                chk.drift_note("large column scenario nz=%d produced non-finite fields (harness profile problem); skipped" % nz)
+                continue
+            Z = np.asarray(grid[2])
+            zl = np.array([Z[k].flat[0] for k in range(nsel)])
+            extra = dict(profile="most", precision="double", source="dense", q=q.tolist())
+            if not np.array_equal(zl, kw["z"][c["lv"]]):
+                _viol(chk, rs, c, "labels", "large column (nz=%d, %d levels): returned heights are not z[levels]" % (nz, nsel), **extra)
+                continue
+            check = range(nsel) if t == "thorough" else sorted(set([0, 1, nsel - 1, nsel - 2, 31, 32, nsel // 2] + [int(x) for x in rng.integers(0, nsel, 6)]))
+            for k in check:
+                if k >= nsel:
+                    continue
+                _, ps, fs = rs.solve3(q, kw, srf_bg_conc=0.3, levels=[c["lv"][k]])
+                what = "large column (nz=%d): slot %d of %d requested levels vs the single-level solve for node %d" % (nz, k, nsel, c["lv"][k])
+                if not (_cmp(chk, rs, c, "slot_is_single", "flux", fm[k], fs[0], "double", what, exact=True, **extra)
+                        and _cmp(chk, rs, c, "slot_is_single", "conc", pm[k], ps[0], "double", what, exact=True, **extra)):
+                    break
+    return n
+
+
 # ------------------------------------------------------------------------- C11 shape
 
 
@@ -775,6 +814,8 @@ def main(prop, families=None):
         "each final state is replayed on the real solver (error/shape prediction + the property's identities, several profile/source/precision variants); "
         "a case is a (configuration, profile set, precision, source) tuple on which an identity was evaluated" % [f for f, _ in families]
     )
+    if prop == "C10":
+        chk.extra["large_column_scenarios"] = large_column_scenarios(chk, rs, t)
     validate_traces(chk, prop, rs, tracefile, limit=4000 if t == "quick" else 40000)
     if t == "thorough" and prop == "C11":
         # the repository's own tests, recorded with the hooks on (sizes far beyond the bounded model)
